@@ -340,7 +340,12 @@ def programs_shard(shard):
     return part
 
 
+def _det(hist):
+    return key_of(snapshot(build(hist)))
+
+
 def run(ctx):
+    ctx.determinism("history replay", _det, [[i, (i * 7) % len(EVENT_MENU), (i * 13 + 5) % len(EVENT_MENU)] for i in range(len(EVENT_MENU))])
     if ctx.tier == "quick":
         depth, max_states, plens = 4, 60000, [(1, False), (2, False), (3, True)]
     else:
